@@ -38,7 +38,7 @@ type retained struct {
 func init() {
 	core.Register(&core.Prop{
 		ID: "C12",
-		Rule: "a seeded history of heterogeneous calls (all struct routes under three tag names with overrides and per-call functions, nested rule sets, groups, Var, VarForFn, Map, MapFn, Url, GetOnlyExplainErr, GetDumpStructStr, one-off types) executed in order, in 6 permutations and with an adversarial predecessor before every call; a sample re-executed as the first call of a fresh process; inputs compared with twins built from the same seed after the calls; " +
+		Rule: "[plus: six Url calls (several absent required keys, keys differing in letter case, groups) repeated 60 times each with a freshly built rule map, text compared byte for byte] a seeded history of heterogeneous calls (all struct routes under three tag names with overrides and per-call functions, nested rule sets, groups, Var, VarForFn, Map, MapFn, Url, GetOnlyExplainErr, GetDumpStructStr, one-off types) executed in order, in 6 permutations and with an adversarial predecessor before every call; a sample re-executed as the first call of a fresh process; inputs compared with twins built from the same seed after the calls; " +
 			"every returned error text, ValidNamesSplit piece and ParseValidNameKV triple retained with a byte copy and re-compared after later calls and garbage collections (binary built with -race, hence checkptr). distinct = distinct (call, order) executions; non-trivial = call returned clauses or ran after an adversarial predecessor",
 		Parent: parentC12,
 		Run:    runC12,
